@@ -2949,6 +2949,7 @@ func (c *connection) send(buf *lib.Buffer, order uint8, compression gen.Compress
 }
 
 func (c *connection) waitResult(ref gen.Ref, ch chan MessageResult) (result MessageResult) {
+	lib.VerifPoint(c, "proto:waitResult")
 
 	timer := lib.TakeTimer()
 	defer lib.ReleaseTimer(timer)
